@@ -1,5 +1,48 @@
 //@unit props=C03,C06,C08,C13,C17,C01
-// Unit vm_loop — the main loop of the symbolic VM: `VM::advance` and `VM::execute` (src/vm/mod.rs) over a STAND-IN VM.
+// Unit vm_loop — THE MAIN LOOP OF THE SYMBOLIC VM: `VM::advance` and `VM::execute` (src/vm/mod.rs), real text, over a STAND-IN VM.
+// This is the one piece of control code that C03 (limits), C06 (a finished thread's state is collected), C08 (halting ends the
+// path), C13 (watchdog polled every `poll_every` iterations; a stop ends everything) and C17 (which errors are recorded per mode; an
+// opcode error ends only the current thread) all rest on.
+//
+// UNDER CONTRACT (re-extracted on every run):
+//   `VM::advance`   with a current thread at pointer ip (ITS pointer at the time of the call): the thread ENDS iff ip+1 is outside the
+//                   code, or the visit counter of ip+1 is at the limit, or its gas usage exceeds `config.gas_limit` (in BOTH error
+//                   modes), or it was killed; an ended thread's state is appended to `stored_states` (exactly one more, equal to the
+//                   thread's: C06) and the queue loses exactly its front; `GasLimitExceeded` located at ip is recorded iff the gas
+//                   condition holds, whatever the mode and whatever else ended the thread; the kill flag is reset; otherwise the thread
+//                   steps by exactly one and nothing else changes; empty queue => Err(InvalidStep), nothing changes.
+//   `VM::execute`   the WHOLE function, loop included (one R-CALL for the dynamic dispatch, one R-TRY desugaring; see there).
+//                   Function contract: Ok only if no error was recorded and every thread ran to its end; any recorded error fails the
+//                   run; an Err lists every recorded error or is the watchdog's stop; stored states are never dropped and every thread
+//                   is queued or stored; a stop answer at ANY poll (of the loop or inside an opcode) is reported and no poll follows it;
+//                   the loop polls exactly ceil(iterations / poll_every) times.  Loop invariant: the same, plus ONE ITERATION spelled out
+//                   (labels C??.loop.execute.iter.*): the current instruction is the one executed; it is marked visited BEFORE it is
+//                   executed and nothing else happens before; the loop's poll comes before the opcode; then the thread ends iff the
+//                   opcode failed (in EVERY mode - tolerated or not, a failed jump never falls through) / halted the path / runs off the
+//                   code / hits the visit limit / is out of gas, its state being stored; otherwise it goes on by one instruction having
+//                   consumed the opcode's `min_gas_cost` (on Ok only); the opcode's error is appended to `errors` UNLESS permissive and
+//                   one of the four jump-target kinds; gas exhaustion is recorded in both modes.
+//   helpers         `VM::{current_thread, current_thread_mut, current_instruction (R-MAP), kill_current_thread}`, `VMThread::{state, state_mut,
+//                   instructions, instructions_mut, consume_gas, gas_usage}`, `From<VMThread> for VMState`, `VMState::{visited_instructions,
+//                   visited_instructions_mut}`, `ExecutionThread::{instruction_pointer, current, step, jump_by}`, `Errors::{new, len, is_empty,
+//                   add, default}`, `From<E> for Errors<E>`, `Locatable` for `Error` and `Result`, `Error`, `Located`, `Config`, `VMThread`,
+//                   `ExecutionThread`, `ExecuteResult`.
+// HOW ONE ITERATION IS NAMED WITH STRUCTURAL ANCHORS ONLY: a ghost `prev` (the VM at the loop head, set at `loopstart`) and a GHOST RUN
+// HISTORY kept by the stand-in of the one call the verifier cannot follow (`exec_opcode`): the VM the last opcode was started on, the VM
+// it left behind, its result.  The invariant - checked at the end of every loop body - relates `prev`, that history and the VM after
+// `advance`.  No ghost text is spliced at a statement of the loop body, so reordering / renaming does not lose an anchor.
+// TERMINATION of the main loop is NOT claimed (see `execute`).
+//
+// STAND-INS / ASSUMPTIONS (each commented where it is declared): A-CALLEE `exec_opcode` with the frame `opcode_frame` (what an opcode may
+// do to the VM), the watchdog oracle with ghost history, A-RESOURCE (< 2^64 opcode executions per run); A-CALLEE contracts proved in other
+// units: `VisitedOpcodes::{mark_visited, at_visit_limit}` (unit limits), `Errors::add_located` (unit errors); type stand-ins `VM` (real field
+// names; `instructions` reduced to `instructions_len`), `VMState` (visit counters + one opaque rest), opaque `DynOpcode`, `DynWatchdog`,
+// `JumpTargets`, `ValueBuilder`, `KnownWord`; A-STD `VecDeque::{is_empty, front, front_mut}`, `i64::from(u32)`; A-DERIVE Clone / PartialEq / Debug.
+//@dropped VM::new (establishes execute's preconditions: one well-formed thread with no gas used), VM::consume / fork_current_thread / enqueue_thread / store_error / the accessors handed to opcodes (units control, watchdog), InstructionStream (reduced to its length: `instructions_len()` is an A-CALLEE accessor)
+//@dropped the dynamic dispatch `instruction.execute(self)` (Rc<dyn Opcode>): R-CALL to the stand-in `exec_opcode`; what the opcodes do is units control / alu_ops / stack / watchdog / storage; here only the FRAME `opcode_frame` is assumed (checked by reading src/opcode/*.rs, see its comment)
+//@dropped termination of the main loop (C03 first sentence): `#[verifier::exec_allows_no_decreases_clause]`; everything proved about `execute` is partial correctness; bounded stand-in: witness driver c03
+//@dropped `Watchdog::should_stop(&self)` takes a shared reference in the repository (the oracle's state is external); the stand-in takes `&mut` so that the ghost poll counter can advance - the call text `self.watchdog.should_stop()` is unchanged
+//@dropped D14 (a forked thread executes its first JUMPDEST without the visit-limit check) is not visible here: `advance` checks the limit of ip+1 only, as its contract says, and nothing is claimed about the first instruction of a queued thread
 #![feature(allocator_api)]   // only to name `VecDeque<T, A>` in the A-STD specifications below (assume_specification must match std's signature)
 use vstd::prelude::*;
 
@@ -45,7 +88,7 @@ impl<E: Clone> Errors<Located<E>> {
         ensures r.log() == Seq::<E>::empty(),
 //@end
 }
-// `?` converts a located error into the error list through this impl (real text, contract as in unit errors)
+// the conversion `?` applies to a located error (real text, contract as in unit errors; Verus does not apply it at a `?` - see R-TRY in `execute`)
 impl<E> vstd::std_specs::convert::FromSpecImpl<E> for Errors<E> {
     open spec fn obeys_from_spec() -> bool { false }
     open spec fn from_spec(v: E) -> Errors<E> { arbitrary() }
@@ -475,15 +518,15 @@ pub open spec fn thread_ends(vm: &VM) -> bool {
 /// the current thread of `pre` is retired in `post`: the queue loses exactly its front, exactly one state more is stored
 /// and it is that thread's state (C06: nothing is dropped)
 pub open spec fn retired(pre: &VM, post: &VM) -> bool {
-    &&& post.q() == pre.q().skip(1)
-    &&& post.stored() == pre.stored().push(pre.q()[0].st())
+    &&& post.q() =~= pre.q().skip(1)
+    &&& post.stored() =~= pre.stored().push(pre.q()[0].st())
 }
 /// the current thread of `pre` goes on in `post`: it is still the front, moved on by one instruction; nothing is stored
 pub open spec fn goes_on(pre: &VM, post: &VM) -> bool {
     &&& post.q().len() == pre.q().len()
     &&& stepped(pre.q()[0], post.q()[0])
     &&& forall|i: int| 1 <= i < pre.q().len() ==> post.q()[i] == pre.q()[i]
-    &&& post.stored() == pre.stored()
+    &&& post.stored() =~= pre.stored()
 }
 
 
@@ -607,12 +650,14 @@ pub fn exec_opcode(instruction: &DynOpcode, vm: &mut VM) -> (r: ExecuteResult)
 // ======================================================================================================
 // Arithmetic of "once per `every` iterations, starting with the first" = ceil(n / every)  (as in unit watchdog)
 // ======================================================================================================
+#[verifier::opaque]
 pub open spec fn polls_due(iterations: nat, every: nat) -> nat { if every == 0 { 0 } else { ((iterations + every - 1) as nat) / every } }
 /// one more iteration costs one more poll exactly when its index is a multiple of the interval
 pub proof fn lemma_polls_due_step(c: nat, e: nat)
     requires e >= 1,
     ensures polls_due(c + 1, e) == polls_due(c, e) + (if c % e == 0 { 1nat } else { 0nat }),
 {
+    reveal(polls_due);
     let q = (c / e) as int;
     let r = (c % e) as int;
     let d = e as int;
@@ -633,6 +678,7 @@ pub proof fn lemma_polls_due_zero(e: nat)
     requires e >= 1,
     ensures polls_due(0, e) == 0,
 {
+    reveal(polls_due);
     vstd::arithmetic::div_mod::lemma_fundamental_div_mod_converse((e - 1) as int, e as int, 0, (e - 1) as int);
 }
 
@@ -679,7 +725,7 @@ pub open spec fn goes_on_with_gas(a: &VM, gas: int, post: &VM) -> bool {
     &&& post.q().len() == a.q().len()
     &&& post.q()[0].st() == a.q()[0].st() && post.q()[0].code() == a.q()[0].code() && post.q()[0].ip() == a.q()[0].ip() + 1 && post.q()[0].gas() == gas
     &&& forall|i: int| 1 <= i < a.q().len() ==> #[trigger] post.q()[i] == a.q()[i]
-    &&& post.stored() == a.stored()
+    &&& post.stored() =~= a.stored()
 }
 
 /// the VM `m` as the main loop hands it to `advance`, in terms of the VM `a` the opcode left behind: the current thread has
@@ -694,15 +740,26 @@ pub open spec fn ready_to_advance(a: &VM, res: ExecuteResult, op: DynOpcode, m: 
     &&& m.current_thread_killed == (a.current_thread_killed || res is Err)
     &&& m.config == a.config && m.instructions_len == a.instructions_len
 }
-/// the four clauses of one iteration that speak about the VM after `advance` (see the loop invariant of `execute`)
-pub open spec fn iter_ends(a: &VM, res: ExecuteResult, op: DynOpcode, post: &VM) -> bool {
-    ends_now(a, res, op) ==> retired(a, post)
-}
+/// the clauses of one iteration that speak about the VM after `advance` (see the loop invariant of `execute`): C08 / C03 / C06 the
+/// current thread ENDS - is retired, its state stored (`retired`) - for each of these reasons, and for no other; C17 what is recorded
+pub open spec fn iter_failed_opcode_ends(a: &VM, res: ExecuteResult, post: &VM) -> bool { res is Err ==> retired(a, post) }
+pub open spec fn iter_halting_opcode_ends(a: &VM, post: &VM) -> bool { a.current_thread_killed ==> retired(a, post) }
+pub open spec fn iter_limits_end(a: &VM, post: &VM) -> bool { next_is_outside_code(a) || next_is_at_visit_limit(a) ==> retired(a, post) }
+pub open spec fn iter_out_of_gas_ends(a: &VM, res: ExecuteResult, op: DynOpcode, post: &VM) -> bool { gas_after(a, res, op) > a.config.gas_limit ==> retired(a, post) }
 pub open spec fn iter_goes_on(a: &VM, res: ExecuteResult, op: DynOpcode, post: &VM) -> bool {
-    !ends_now(a, res, op) ==> goes_on_with_gas(a, gas_after(a, res, op), post)
+    !ends_now(a, res, op) ==> goes_on_with_gas(a, gas_after(a, res, op), post) && !retired(a, post)
 }
 pub open spec fn iter_records(a: &VM, res: ExecuteResult, op: DynOpcode, post: &VM) -> bool {
     gas_after(a, res, op) <= a.config.gas_limit ==> post.log() == log_after_opcode_result(a, res)
+}
+pub open spec fn iteration_summary(a: &VM, res: ExecuteResult, op: DynOpcode, post: &VM) -> bool {
+    &&& iter_failed_opcode_ends(a, res, post)
+    &&& iter_halting_opcode_ends(a, post)
+    &&& iter_limits_end(a, post)
+    &&& iter_out_of_gas_ends(a, res, op, post)
+    &&& iter_goes_on(a, res, op, post)
+    &&& iter_records(a, res, op, post)
+    &&& iter_records_gas_exhaustion(a, res, op, post)
 }
 pub open spec fn iter_records_gas_exhaustion(a: &VM, res: ExecuteResult, op: DynOpcode, post: &VM) -> bool {
     gas_after(a, res, op) > a.config.gas_limit ==> post.log().to_multiset()
@@ -797,6 +854,10 @@ match Err(Error::StoppedByWatchdog).locate($1) { Ok(()) => (), Err(e) => return 
             r is Ok ==> final(self).own_polls() - old(self).own_polls() == polls_due((final(self).executed() - old(self).executed()) as nat, old(self).watchdog.interval() as nat),      //@ob C13.loop.execute.polls_once_per_interval
             final(self).own_polls() - old(self).own_polls() >= polls_due((final(self).executed() - old(self).executed()) as nat, old(self).watchdog.interval() as nat),      //@ob C13.loop.execute.never_fewer_polls_than_promised
             final(self).own_polls() - old(self).own_polls() <= polls_due((final(self).executed() - old(self).executed() + 1) as nat, old(self).watchdog.interval() as nat),      //@ob C13.loop.execute.never_more_polls_than_promised
+            // C17 / C06: nothing is done to the VM after the last iteration - unless an opcode was stopped by the watchdog, the VM returned
+            // is the VM the last `advance` left (what was recorded stays recorded, what was stored stays stored)
+            final(self).executed() > old(self).executed() && !stopped(final(self).watchdog.op_result())
+                ==> iteration_summary(&final(self).watchdog.after_op(), final(self).watchdog.op_result(), final(self).watchdog.last_op(), final(self)),      //@ob C17.loop.execute.nothing_is_undone_after_the_last_iteration C06.loop.execute.nothing_is_undone_after_the_last_iteration
             final(self).config == old(self).config, final(self).instructions_len == old(self).instructions_len, final(self).wf(),
 //@loop 1
             invariant
@@ -817,10 +878,14 @@ match Err(Error::StoppedByWatchdog).locate($1) { Ok(()) => (), Err(e) => return 
                 counter > 0 ==> prev.q().len() > 0 && self.watchdog.last_op() == prev.q()[0].code()[prev.q()[0].ip() as int],      //@ob C08.loop.execute.iter.executes_the_current_instruction
                 counter > 0 ==> marks_current_instruction(&prev, &self.watchdog.before_op()),                           //@ob C03.loop.execute.iter.marks_the_instruction_visited_before_executing_it
                 counter > 0 ==> nothing_else_before_opcode(&prev, &self.watchdog.before_op()),                          //@ob C03.loop.execute.iter.nothing_else_happens_before_the_opcode
-                counter > 0 ==> self.watchdog.before_op().polls() == prev.polls() + (if (counter as int - 1) % (poll_interval as int) == 0 { 1nat } else { 0nat }),      //@ob C13.loop.execute.iter.polls_iff_counter_is_a_multiple_of_the_interval
+                // (WHICH iterations poll is pinned by the invariant `loop.polls_once_per_interval` above; this says when in the iteration)
+                counter > 0 ==> self.watchdog.before_op().own_polls() == self.own_polls(),                              //@ob C13.loop.execute.iter.polls_before_executing_the_opcode
                 // C08 / C03 / C06: the current thread ENDS - is retired, its state stored - when the opcode failed (in EVERY mode) or halted
                 // the path, when it runs off the end of the code or into the visit limit, or when it is out of gas (`ends_now`) ...
-                counter > 0 ==> iter_ends(&self.watchdog.after_op(), self.watchdog.op_result(), self.watchdog.last_op(), self),      //@ob C08.loop.execute.iter.failed_or_halting_opcode_ends_the_thread C03.loop.execute.iter.thread_ends_at_its_limits C06.loop.execute.iter.ended_thread_state_is_stored
+                counter > 0 ==> iter_failed_opcode_ends(&self.watchdog.after_op(), self.watchdog.op_result(), self),                  //@ob C08.loop.execute.iter.failed_opcode_ends_the_thread_in_every_mode
+                counter > 0 ==> iter_halting_opcode_ends(&self.watchdog.after_op(), self),                                            //@ob C08.loop.execute.iter.halting_opcode_ends_the_path
+                counter > 0 ==> iter_limits_end(&self.watchdog.after_op(), self),                                                     //@ob C03.loop.execute.iter.thread_ends_at_the_end_of_the_code_or_the_visit_limit
+                counter > 0 ==> iter_out_of_gas_ends(&self.watchdog.after_op(), self.watchdog.op_result(), self.watchdog.last_op(), self),      //@ob C03.loop.execute.iter.thread_ends_when_out_of_gas_in_both_modes
                 // ... and for no other reason: otherwise it goes on by exactly one instruction, having consumed the opcode's minimum gas on Ok
                 counter > 0 ==> iter_goes_on(&self.watchdog.after_op(), self.watchdog.op_result(), self.watchdog.last_op(), self),      //@ob C03.loop.execute.iter.otherwise_goes_on_and_ok_consumes_min_gas
                 // C17: what is recorded - the opcode's error unless tolerated, and gas exhaustion in both modes; nothing else
@@ -872,12 +937,8 @@ match Err(Error::StoppedByWatchdog).locate($1) { Ok(()) => (), Err(e) => return 
             // THE CLAUSES ABOVE COMPOSED WITH WHAT THE MAIN LOOP DOES BETWEEN AN OPCODE AND THIS CALL (proved here, where the context is
             // small, and used by the loop invariant of `execute`): if the VM is as the loop leaves it once the opcode's result is
             // dealt with (`ready_to_advance`, in terms of the ghost run history), the iteration ends as the properties say
-            ready_to_advance(&old(self).watchdog.after_op(), old(self).watchdog.op_result(), old(self).watchdog.last_op(), old(self)) ==> {
-                &&& iter_ends(&old(self).watchdog.after_op(), old(self).watchdog.op_result(), old(self).watchdog.last_op(), final(self))
-                &&& iter_goes_on(&old(self).watchdog.after_op(), old(self).watchdog.op_result(), old(self).watchdog.last_op(), final(self))
-                &&& iter_records(&old(self).watchdog.after_op(), old(self).watchdog.op_result(), old(self).watchdog.last_op(), final(self))
-                &&& iter_records_gas_exhaustion(&old(self).watchdog.after_op(), old(self).watchdog.op_result(), old(self).watchdog.last_op(), final(self))
-            },                                                                                                         //@ob C03.loop.advance.composes_with_the_main_loop
+            ready_to_advance(&old(self).watchdog.after_op(), old(self).watchdog.op_result(), old(self).watchdog.last_op(), old(self))
+                ==> iteration_summary(&old(self).watchdog.after_op(), old(self).watchdog.op_result(), old(self).watchdog.last_op(), final(self)),      //@ob C03.loop.advance.composes_with_the_main_loop
 //@proof entry
         broadcast use lemma_update_front_skip;
         proof {
